@@ -271,6 +271,9 @@ def add_traces(batch, result, expect_open="ok"):
             cut = case.get("cut")
             flen = cut[1] if cut is not None and cut[0] == idx else None
             rpc = case.get("rpc") if case.get("rpc") is not None else 1024
+            if isinstance(rpc, str):
+                # a request size given as a byte size: the number of lines per group is what the opened image itself advertises
+                rpc = int((im.get("enc") or {}).get("preferred_chunksizes", {}).get("rows", im["n"]))
             geom = iotrace.geom_of(im, min(int(rpc), im["n"] + 1), flen)
             tid = batch.start(geom, meta={"case": case, "image": im["name"]})
             batch.mark(tid, e="begin_open")
